@@ -1496,6 +1496,21 @@ static string opParse(const vector<string>& a)
 }
 
 
+// parse2 <hex t0> <hex t1> : two spellings of one description (nullary rules with / without parentheses and blanks, layout)
+static string opParse2(const vector<string>& a)
+{
+	string out;
+	for (size_t i = 0; i < 2; ++i) {
+		string in = unhexS(a.at(i));
+		Parsing::TimbukParser p;
+		out += (i ? " P1=" : "P0=");
+		try { Util::AutDescription d = p.ParseString(in); out += "OK;" + descDump(d); }
+		catch (const std::exception&) { out += "ERR"; }
+	}
+	return out;
+}
+
+
 // ---------------------------------------------------------------- metamorphic relations and laws (C19)
 static TA loadOperand(const string& tok, TA::AlphabetType& alph)
 {
@@ -1911,6 +1926,7 @@ static string runCase(const string& kind, const vector<string>& args)
 	if (kind == "isect") return opIsect(args, false);
 	if (kind == "isectbu") return opIsect(args, true);
 	if (kind == "mapsx") return opMapsX(args);
+	if (kind == "parse2") return opParse2(args);
 	if (kind == "trim") return opTrim(args);
 	if (kind == "cand") return opCand(args);
 	if (kind == "reduce") return opReduce(args);
